@@ -227,3 +227,34 @@ Proof.
   intros p gs Hwf Hlay. unfold parse_text, print_bst.
   apply (parse_loop_program p Hwf gs None _ 1%Z Hlay). lia.
 Qed.
+
+(* ---- single tokens: each literal kind is read back from its printed form, whatever whitespace
+        precedes it and whatever follows that does not extend it *)
+Definition is_atom (t : tok) : bool := match t with TFun _ => false | _ => true end.
+Theorem token_roundtrip : forall t, is_atom t = true -> wf_tokb t = true ->
+  exists lt, flat_tok t = [lt] /\
+    forall g r ln, forallb is_space g = true -> boundary_ok lt r ->
+      required group_pats false (g ++ ltok_text lt ++ r) ln
+        = Ok ((pat_of lt, ltok_text lt), (r, (ln + nl_count g)%Z)) /\
+      literal (pat_of lt) (ltok_text lt) = Ok t.
+Proof.
+  intros t Ha Hwf.
+  destruct (atom_cases t Hwf) as (lt & Hflat & Hwlt & Hlit & _).
+  { intros b ->. discriminate. }
+  exists lt. split; [exact Hflat|]. intros g r ln Hg Hb. split; [|exact Hlit].
+  now apply required_tok.
+Qed.
+
+(* ---- a name that is not one of the ten commands is rejected on its own line *)
+Theorem unknown_command_rejected : forall g name r,
+  forallb is_space g = true -> wf_nameb name = true -> stops is_name_char r -> arity name = None ->
+  parse_text (g ++ name ++ r) = PyErr cls_token_required (1 + nl_count g)%Z.
+Proof.
+  intros g name r Hg Hn Hr Har. unfold parse_text. cbn [parse_loop]. unfold parse_command.
+  rewrite (required_name g name r 1%Z Hg (wf_nameb_wf _ Hn) Hr). cbn [bind]. rewrite Har. reflexivity.
+Qed.
+
+Corollary layout_independent : forall p gs1 gs2, wf_programb p = true ->
+  layout_okb None gs1 (flat_program p) = true -> layout_okb None gs2 (flat_program p) = true ->
+  parse_text (print_bst gs1 p) = parse_text (print_bst gs2 p).
+Proof. intros. rewrite !text_roundtrip by assumption. reflexivity. Qed.
